@@ -176,7 +176,11 @@ func (tm *TypeMap) KeySort(key string, cs *ContractSet) *Sort {
 	case strings.HasPrefix(key, "E:"):
 		return SArray(SInt, SArray(SInt, parseSort(key[2:])))
 	case strings.HasPrefix(key, "M:"):
-		return SArray(SInt, parseSort(key[2:]))
+		rest := key[2:]
+		if i := strings.Index(rest, ":"); i >= 0 {
+			rest = rest[:i]
+		}
+		return SArray(SInt, parseSort(rest))
 	case strings.HasPrefix(key, "MD:"):
 		return SArray(SInt, SArray(parseSort(key[3:]), SBool))
 	case strings.HasPrefix(key, "MV:"):
@@ -213,7 +217,12 @@ func ghostSort(s string) *Sort {
 func sortKey(s *Sort) string { return s.String() }
 
 func ElemKey(s *Sort) string { return "E:" + sortKey(s) }
-func MemKey(s *Sort) string  { return "M:" + sortKey(s) }
+// MemKey: memory cells reached through pointers are partitioned by the Go
+// element type (Go's type safety: a *T only points to T-typed memory; pointer
+// conversions between distinct named types are reported by the pre-pass).
+func (tm *TypeMap) MemKey(t types.Type) string {
+	return "M:" + sortKey(tm.SortOf(t)) + ":" + typeKey(t)
+}
 func MapDomKey(k *Sort) string {
 	return "MD:" + sortKey(k)
 }
